@@ -83,6 +83,7 @@ def case_circle(ctx, n, origin, prefix):
     ind = indicator(n, r, cx, cy, origin)
     names = dict(r=r, cx=cx, cy=cy)
     rp = lambda m: replay_circle(n, m(r), m(cx), m(cy), origin)
+    ctx.fallback = rp
     for pi, p in enumerate(paths):
         if p.exc is not None:
             ctx.prove("path%d raises %s" % (pi, type(p.exc).__name__), pre + p.pc, z3.BoolVal(False), replay=rp, witness_terms=names, axioms=False)
@@ -131,6 +132,7 @@ def case_circle_fresh(ctx):
     paths, ex = core.run_paths(go, pre)
     ctx.explored(ex, len(paths))
     rp = lambda m: harness.pristine_call(_replay_fresh)
+    ctx.fallback = rp
     for pi, p in enumerate(paths):
         if p.exc is not None:
             continue
@@ -193,6 +195,7 @@ def case_active(ctx, shape, subaps):
     ctx.bounds.update(mask_shape=list(shape), subaps=subaps, mask="symbolic values in [0,1]", threshold="symbolic (any real)")
     names = dict(thr=thr)
     rp = lambda m: replay_active(shape, subaps, m(mask), m(thr))
+    ctx.fallback = rp
 
     def go():
         with npx.symbolic(w):
